@@ -1,16 +1,26 @@
 import GrmVerif.Model.ActionsSpec
+import GrmVerif.Model.RecActions
+import GrmVerif.Lemmas.RecActions5
+import GrmVerif.Lemmas.KeptCert
 import GrmVerif.Drive.Util
 /-!
 Driver for C08. Request: `<grammar> <automaton> stride toklen ninputs` then per input
 `len tok… | mode | kind [tree log]` (`mode` 0 recovery off / 1 CPCT+; `kind` 0 no value, 1 value with
 tree and action log of the implementation, 2 not run). Trees: `0 tok idx` leaf (inserted lexemes:
 `idx = 1000000 + start byte`), `1 p n kid…` node. Log: `ncalls (p r start end nargs arg…)*`, arg =
-`0 tok idx` | `1 <tree>`.
-Reply: `M k <log>` the model's action log for recovery-off inputs (compared with the implementation's),
-`V` the specification's verdict on the implementation's (tree, log), both modes.
+`0 tok idx` | `1 <tree>`. For `mode = 1`, `kind = 1` the reported errors follow:
+`nerr (laidx nseq (len (op arg)…)…)…` (`op` 0 insert t / 1 delete idx / 2 shift idx).
+Reply: `M k <log>` the model's action log for recovery-off inputs (`Act.parseA`; compared with the
+implementation's `I` lines); `Mr k <log> | <tree>` for the inputs run under recovery: log and returned
+value of the model of the recovering driver `RecAct.recRunA`, whose recoverer answers, at a reported
+error position, the reported sequences (the model replays the FIRST one in value mode) — compared with
+the implementation's `Ir` lines exactly; `V` the specification's verdict on the implementation's
+(tree, log), both modes, and — on tables with `C05.wholeRunCert`, the hypothesis of
+`C08.recovering_actions_are_actions_of_edited_input_certified` — the verdict "the model's log and value
+under recovery are those of `parseA` on the edited input" (the theorem's right-hand side evaluated).
 -/
 namespace GrmVerif.Drive.C08
-open GrmVerif GrmVerif.Act GrmVerif.Drive GrmVerif.LR
+open GrmVerif GrmVerif.Act GrmVerif.Drive GrmVerif.LR GrmVerif.Rec GrmVerif.RecAct
 
 def FAULTY := 1000000
 
@@ -61,12 +71,52 @@ def argStr : Arg → String
 def callStr (c : Call) : String :=
   s!"{c.p},{c.r},{c.start},{c.stop},{".".intercalate (c.args.map argStr)}"
 
+/-- a reported error: position and repair sequences as (op, arg) pairs -/
+structure RErr where
+  laidx : Nat
+  seqs : List (List (Nat × Nat))
+
 structure Inp where
   w : List Nat
   mode : Nat
   kind : Nat
   tree : Option Tree
   log : List Call
+  errs : List RErr := []
+
+def parseROps : Nat → List Nat → Option (List (Nat × Nat) × List Nat)
+  | 0, r => some ([], r)
+  | n + 1, op :: a :: r => (parseROps n r).map (fun (xs, r') => ((op, a) :: xs, r'))
+  | _, _ => none
+
+def parseRSeqs : Nat → List Nat → Option (List (List (Nat × Nat)) × List Nat)
+  | 0, r => some ([], r)
+  | n + 1, len :: r =>
+    match parseROps len r with
+    | none => none
+    | some (s, r') => (parseRSeqs n r').map (fun (ss, r'') => (s :: ss, r''))
+  | _, _ => none
+
+def parseRErrs : Nat → List Nat → Option (List RErr × List Nat)
+  | 0, r => some ([], r)
+  | n + 1, la :: ns :: r =>
+    match parseRSeqs ns r with
+    | none => none
+    | some (ss, r') => (parseRErrs n r').map (fun (es, r'') => (⟨la, ss⟩ :: es, r''))
+  | _, _ => none
+
+def toRep (x : Nat × Nat) : Repair :=
+  match x.1 with
+  | 0 => .insert x.2
+  | 1 => .delete
+  | _ => .shift
+
+/-- the recoverer replayed from the reported errors: at a reported error position, the reported
+sequences (lexemes forgotten) -/
+def replayRecover (errs : List RErr) : Pos → List (List Repair) := fun c =>
+  match errs.find? (fun e => e.laidx == c.pos) with
+  | some e => e.seqs.map (·.map toRep)
+  | none => []
 
 partial def parseInps : Nat → List Nat → Option (List Inp)
   | 0, _ => some []
@@ -80,9 +130,17 @@ partial def parseInps : Nat → List Nat → Option (List Inp)
         | some (t, nc :: r) =>
           match parseCalls nc r with
           | none => none
-          | some (cs, r') => (parseInps n r').map (fun is => ⟨w, mode, kind, some t, cs⟩ :: is)
+          | some (cs, r') =>
+            if mode == 1 then
+              match r' with
+              | ne :: r2 =>
+                match parseRErrs ne r2 with
+                | none => none
+                | some (es, r3) => (parseInps n r3).map (fun is => ⟨w, mode, kind, some t, cs, es⟩ :: is)
+              | [] => none
+            else (parseInps n r').map (fun is => ⟨w, mode, kind, some t, cs, []⟩ :: is)
         | _ => none
-      else (parseInps n rest').map (fun is => ⟨w, mode, kind, none, []⟩ :: is)
+      else (parseInps n rest').map (fun is => ⟨w, mode, kind, none, [], []⟩ :: is)
     | _ => none
 
 /-- the lexemes at the leaves lie in the input in tree order: each starts at or after the end of the
@@ -91,6 +149,35 @@ the first to the last lexeme derived" would not even be a span -/
 def leavesInOrder : List (Nat × Nat) → Bool
   | a :: b :: rest => a.2 ≤ b.1 && leavesInOrder (b :: rest)
   | _ => true
+
+/-- an argument of the model of the recovering driver, in the implementation's format: a real lexeme
+by its index, an inserted one (`lexId`) as `F tok:start byte` -/
+def argStrR (lexSpan : Nat → Nat × Nat) (n : Nat) : Arg → String
+  | .lexeme t i => if i ≤ n then s!"L{t}:{i}" else s!"F{t}:{(idSpan lexSpan n i).1}"
+  | .value (.node p _) => s!"N{p}"
+  | .value (.leaf t i) => if i ≤ n then s!"L{t}:{i}" else s!"F{t}:{(idSpan lexSpan n i).1}"
+
+def callStrR (lexSpan : Nat → Nat × Nat) (n : Nat) (c : Call) : String :=
+  s!"{c.p},{c.r},{c.start},{c.stop},{".".intercalate (c.args.map (argStrR lexSpan n))}"
+
+/-- a tree in the format of the harness' `PTree::to_text` -/
+partial def treeStrR (lexSpan : Nat → Nat × Nat) (n : Nat) : Tree → String
+  | .leaf t i => if i ≤ n then s!"L {t} {i}" else s!"F {t} {(idSpan lexSpan n i).1}"
+  | .node p kids => " ".intercalate (s!"N {p} {kids.length}" :: kids.map (treeStrR lexSpan n))
+
+def callEq (a b : Call) : Bool :=
+  a.p == b.p && a.r == b.r && a.start == b.start && a.stop == b.stop && argsEq a.args b.args
+
+def logEq : List Call → List Call → Bool
+  | [], [] => true
+  | a :: as, b :: bs => callEq a b && logEq as bs
+  | _, _ => false
+
+def outStr : Outcome → String
+  | .accept _ => "acc"
+  | .error _ _ => "err"
+  | .crash _ => "crash"
+  | .fuelOut => "div"
 
 def handle (args : List Nat) : String :=
   match parseGrammar args with
@@ -103,14 +190,45 @@ def handle (args : List Nat) : String :=
       | none => "bad-request"
       | some inps =>
         let lexSpan := lexSpanOf stride toklen
+        let realSpan : Nat → Nat × Nat := fun idx => (stride * idx + 1, stride * idx + 1 + toklen)
+        -- inputs run under recovery: the model of the recovering driver replaying the reported repairs
+        let recs := (List.range inps.length).filterMap (fun k =>
+          let i := inps.getD k ⟨[], 0, 2, none, [], []⟩
+          if i.mode != 1 || i.kind != 1 then none else
+          some (k, i, parseRA G A i.w realSpan (replayRecover i.errs) (2 * i.w.length + 4)))
+        let mrs := recs.map (fun (k, i, (o, log, _)) =>
+          let n := i.w.length
+          let ts := match o with | .accept t => treeStrR realSpan n t | _ => "-"
+          s!"Mr {k} {outStr o} {";".intercalate (log.map (callStrR realSpan n))} | {ts}")
+        -- the right-hand side of `C08.recovering_actions_are_actions_of_edited_input_certified`
+        let certified := !recs.isEmpty && C05.wholeRunCert G A
+        let thm := recs.map (fun (k, i, (o, log, errs)) =>
+          match o with
+          | .accept t =>
+            let toks := C05.editedToks i.w i.w.length 0 errs
+            let (o', log') := parseA G A toks (editedSpan i.w realSpan errs) (400 * (toks.length + 2))
+            let f := editedId i.w errs
+            let same := match o' with
+              | .accept t' => treeEq t (treeMapIdx f t') && logEq log (log'.map (callMapIdx f))
+              | _ => false
+            (k, i, same)
+          | _ => (k, i, true))
+        let thmFails := thm.filterMap (fun (k, i, same) =>
+          if certified && !same then
+            some s!"V fail recovering-log-is-not-the-log-of-the-plain-action-driver-on-the-edited-input input={k} w={i.w}"
+          else none)
+        let nsame := (thm.filter (fun (_, _, same) => same)).length
+        let cs := if recs.isEmpty then [] else
+          [s!"C {if certified then "recovering_logs_equal_to_parseA_on_the_edited_input_certified_tables" else "recovering_logs_equal_to_parseA_on_the_edited_input_uncertified_tables"} {nsame}",
+           s!"C {if certified then "recovering_logs_compared_certified_tables" else "recovering_logs_compared_uncertified_tables"} {thm.length}"]
         let ms := (List.range inps.length).filterMap (fun k =>
-          let i := inps.getD k ⟨[], 0, 2, none, []⟩
+          let i := inps.getD k ⟨[], 0, 2, none, [], []⟩
           if i.mode != 0 || i.kind == 2 then none else
           let (o, log) := parseA G A i.w lexSpan (400 * (i.w.length + 2))
           let os := match o with | .accept _ => "acc" | .error _ _ => "err" | .crash _ => "crash" | .fuelOut => "div"
           some s!"M {k} {os} {";".intercalate (log.map callStr)}")
         let vs := (List.range inps.length).filterMap (fun k =>
-          let i := inps.getD k ⟨[], 0, 2, none, []⟩
+          let i := inps.getD k ⟨[], 0, 2, none, [], []⟩
           match i.tree with
           | none => none
           | some t =>
@@ -118,7 +236,8 @@ def handle (args : List Nat) : String :=
               some s!"V fail lexemes-at-the-leaves-not-in-input-order input={k} mode={i.mode} w={i.w} spans={leafSpans lexSpan t}"
             else if logOk i.log (specCalls G lexSpan t) then none
             else some s!"V fail action-log-does-not-match-tree input={k} mode={i.mode} w={i.w}")
-        "\n".intercalate ((if vs.isEmpty then ["V ok"] else vs) ++ ms)
+        let vs := vs ++ thmFails
+        "\n".intercalate ((if vs.isEmpty then ["V ok"] else vs) ++ ms ++ mrs ++ cs)
     | _ => "bad-request"
 
 end GrmVerif.Drive.C08
